@@ -455,4 +455,252 @@ theorem writeIndex_bytes (crc : Crc) (syms : List Bytes) (series : List Series) 
         indexMid crc syms series ++ encToc crc (writeIndex crc syms series).toc := by
   simp only [writeIndex, indexMid, List.append_assoc]
 
+/-! ### postings placement, the reader's table, distinct keys -/
+
+theorem padLen4_aligned (pos : Nat) : (pos + padLen 4 pos) % 4 = 0 := by
+  unfold padLen; omega
+
+theorem placePostings_length (crc : Crc) : ∀ (ps : List PList) (pos : Nat),
+    (placePostings crc pos ps).2.length = ps.length := by
+  intro ps
+  induction ps with
+  | nil => intro pos; rfl
+  | cons p ps ih => intro pos; simp [placePostings, ih]
+
+/-- Every postings list sits in the postings section at the offset recorded for it. -/
+theorem placePostings_spec (crc : Crc) : ∀ (ps : List PList) (pos k : Nat) (p : PList),
+    ps[k]? = some p →
+    ∃ e a b, (placePostings crc pos ps).2[k]? = some e ∧ e.name = p.name ∧ e.value = p.value ∧
+      (placePostings crc pos ps).1 = a ++ postingsList crc p.ids ++ b ∧ pos + a.length = e.off := by
+  intro ps
+  induction ps with
+  | nil => intro pos k p h; simp at h
+  | cons p0 ps ih =>
+    intro pos k p hp
+    cases k with
+    | zero =>
+      simp only [List.getElem?_cons_zero, Option.some.injEq] at hp
+      subst hp
+      refine ⟨⟨p0.name, p0.value, pos + padLen 4 pos⟩, zeros (padLen 4 pos),
+        (placePostings crc (pos + padLen 4 pos + (postingsList crc p0.ids).length) ps).1, ?_, rfl, rfl, ?_, ?_⟩
+      · simp [placePostings]
+      · simp [placePostings]
+      · simp [zeros]
+    | succ k =>
+      simp only [List.getElem?_cons_succ] at hp
+      obtain ⟨e, a, b, he, hn, hv, hab, hoff⟩ := ih (pos + padLen 4 pos + (postingsList crc p0.ids).length) k p hp
+      refine ⟨e, zeros (padLen 4 pos) ++ postingsList crc p0.ids ++ a, b, ?_, hn, hv, ?_, ?_⟩
+      · simp only [placePostings, List.getElem?_cons_succ]; exact he
+      · simp only [placePostings, hab, List.append_assoc]
+      · simp only [List.length_append, zeros, List.length_replicate] at hoff ⊢
+        omega
+
+/-! ### `sortUniq` -/
+
+theorem mem_insertUniq {x y : Nat} : ∀ {l : List Nat}, y ∈ insertUniq x l → y = x ∨ y ∈ l := by
+  intro l
+  induction l with
+  | nil => intro h; simp [insertUniq] at h; exact Or.inl h
+  | cons z zs ih =>
+    intro h
+    unfold insertUniq at h
+    split at h
+    · simp at h; rcases h with h | h | h
+      · exact Or.inl h
+      · exact Or.inr (by simp [h])
+      · exact Or.inr (by simp [h])
+    · split at h
+      · exact Or.inr h
+      · simp at h; rcases h with h | h
+        · exact Or.inr (by simp [h])
+        · rcases ih h with h | h
+          · exact Or.inl h
+          · exact Or.inr (by simp [h])
+
+theorem mem_sortUniq {y : Nat} : ∀ {l : List Nat}, y ∈ sortUniq l → y ∈ l := by
+  intro l
+  induction l with
+  | nil => intro h; simp [sortUniq] at h
+  | cons x xs ih =>
+    intro h
+    unfold sortUniq at h
+    simp only [List.foldr_cons] at h
+    rcases mem_insertUniq h with h | h
+    · simp [h]
+    · exact List.mem_cons_of_mem _ (ih h)
+
+
+/-- offsets and names of the placed entries -/
+theorem placePostings_mem (crc : Crc) : ∀ (ps : List PList) (pos : Nat) (e : TableEntry),
+    e ∈ (placePostings crc pos ps).2 →
+    e.off ≤ pos + (placePostings crc pos ps).1.length ∧ ∃ p ∈ ps, e.name = p.name ∧ e.value = p.value := by
+  intro ps
+  induction ps with
+  | nil => intro pos e h; simp [placePostings] at h
+  | cons p0 ps ih =>
+    intro pos e h
+    simp only [placePostings, List.mem_cons] at h
+    rcases h with h | h
+    · subst h
+      refine ⟨?_, p0, by simp, rfl, rfl⟩
+      simp only [placePostings, List.length_append, zeros, List.length_replicate]; omega
+    · obtain ⟨h1, p, hp, hn, hv⟩ := ih _ e h
+      refine ⟨?_, p, by simp [hp], hn, hv⟩
+      simp only [placePostings, List.length_append, zeros, List.length_replicate] at h1 ⊢; omega
+
+theorem encTableEntry_length_pos (e : TableEntry) : 0 < (encTableEntry e).length := by
+  unfold encTableEntry
+  simp only [List.length_append]
+  have := putUvarint_length_pos 2
+  omega
+
+theorem flatMap_enc_length_ge (es : List TableEntry) : es.length ≤ (es.flatMap encTableEntry).length := by
+  induction es with
+  | nil => simp
+  | cons e es ih =>
+    have := encTableEntry_length_pos e
+    simp only [List.flatMap_cons, List.length_append, List.length_cons]; omega
+
+def pstartOf (crc : Crc) (syms : List Bytes) (series : List Series) : Nat :=
+  let p2 := indexHeader.length + (symbolTable crc syms).length +
+    (placeSeries crc (indexHeader.length + (symbolTable crc syms).length) series).1.length
+  p2 + padLen 4 p2
+
+def ppOf (crc : Crc) (syms : List Bytes) (series : List Series) : Bytes × List TableEntry :=
+  placePostings crc 0 (allPLists syms series
+    (placeSeries crc (indexHeader.length + (symbolTable crc syms).length) series).2)
+
+def tableOf (crc : Crc) (syms : List Bytes) (series : List Series) : List TableEntry :=
+  (ppOf crc syms series).2.map fun e => { e with off := e.off + pstartOf crc syms series }
+
+/-- the file up to the postings offset table -/
+def beforeTable (crc : Crc) (syms : List Bytes) (series : List Series) : Bytes :=
+  indexHeader ++ symbolTable crc syms ++
+    (placeSeries crc (indexHeader.length + (symbolTable crc syms).length) series).1 ++
+    zeros (padLen 4 (indexHeader.length + (symbolTable crc syms).length +
+      (placeSeries crc (indexHeader.length + (symbolTable crc syms).length) series).1.length)) ++
+    (ppOf crc syms series).1
+
+theorem writeIndex_bytes2 (crc : Crc) (syms : List Bytes) (series : List Series) :
+    (writeIndex crc syms series).bytes =
+      beforeTable crc syms series ++ offsetTable crc (tableOf crc syms series) ++
+        encToc crc (writeIndex crc syms series).toc := by
+  simp only [writeIndex, beforeTable, tableOf, ppOf, pstartOf, List.append_assoc]
+
+theorem beforeTable_length (crc : Crc) (syms : List Bytes) (series : List Series) :
+    (beforeTable crc syms series).length = (writeIndex crc syms series).toc.postingsTable := by
+  simp only [writeIndex, beforeTable, ppOf, List.length_append, zeros, List.length_replicate]
+
+theorem pstartOf_add (crc : Crc) (syms : List Bytes) (series : List Series) :
+    pstartOf crc syms series + (ppOf crc syms series).1.length = (beforeTable crc syms series).length := by
+  simp only [beforeTable, pstartOf, List.length_append, zeros, List.length_replicate]
+
+theorem find?_unique_index {α} (P : α → Bool) : ∀ (l : List α) (k : Nat) (x : α),
+    l[k]? = some x → P x = true → (∀ j y, l[j]? = some y → P y = true → j = k) → l.find? P = some x := by
+  intro l
+  induction l with
+  | nil => intro k x h; simp at h
+  | cons y ys ih =>
+    intro k x hk hP huniq
+    by_cases hy : P y = true
+    · have := huniq 0 y (by simp) hy
+      subst this
+      simp only [List.getElem?_cons_zero, Option.some.injEq] at hk
+      subst hk
+      simp [List.find?, hy]
+    · cases k with
+      | zero =>
+        simp only [List.getElem?_cons_zero, Option.some.injEq] at hk
+        subst hk
+        exact absurd hP hy
+      | succ k =>
+        simp only [List.getElem?_cons_succ] at hk
+        have hy' : P y = false := by simpa using hy
+        simp only [List.find?, hy']
+        apply ih k x hk hP
+        intro j z hj hz
+        have := huniq (j + 1) z (by simpa using hj) hz
+        omega
+
+
+theorem placeSeries_ids_bound (crc : Crc) : ∀ (ss : List Series) (pos : Nat) (id : Nat),
+    id ∈ (placeSeries crc pos ss).2 → id * 16 ≤ pos + (placeSeries crc pos ss).1.length := by
+  intro ss
+  induction ss with
+  | nil => intro pos id h; simp [placeSeries] at h
+  | cons s ss ih =>
+    intro pos id h
+    simp only [placeSeries, List.mem_cons] at h
+    rcases h with h | h
+    · subst h
+      simp only [placeSeries, List.length_append, zeros, List.length_replicate]
+      have := Nat.div_mul_le_self (pos + padLen 16 pos) 16
+      omega
+    · have := ih _ id h
+      simp only [placeSeries, List.length_append, zeros, List.length_replicate] at this ⊢
+      omega
+
+theorem idsWith_subset (placed : List (Nat × Series)) (n v id : Nat) (h : id ∈ idsWith placed n v) :
+    id ∈ placed.map (·.1) := by
+  unfold idsWith at h
+  simp only [List.mem_flatMap, List.mem_map] at h
+  obtain ⟨p, hp, _, _, rfl⟩ := h
+  exact List.mem_map.mpr ⟨p, hp, rfl⟩
+
+theorem allPLists_ids_subset (syms : List Bytes) (series : List Series) (ids : List Nat) (p : PList)
+    (hp : p ∈ allPLists syms series ids) (id : Nat) (hid : id ∈ p.ids) : id ∈ ids := by
+  unfold allPLists at hp
+  simp only [List.mem_cons, List.mem_flatMap, List.mem_map] at hp
+  rcases hp with hp | ⟨n, _, v, _, hv⟩
+  · subst hp; exact hid
+  · subst hv
+    have := idsWith_subset _ n v id hid
+    simp only [List.mem_map] at this
+    obtain ⟨q, hq, rfl⟩ := this
+    exact (List.of_mem_zip hq).1
+
+theorem insertUniq_sorted (x : Nat) : ∀ (l : List Nat), l.Pairwise (· < ·) → (insertUniq x l).Pairwise (· < ·) := by
+  intro l
+  induction l with
+  | nil => intro _; simp [insertUniq]
+  | cons z zs ih =>
+    intro h
+    rw [List.pairwise_cons] at h
+    unfold insertUniq
+    split
+    · rename_i hxz
+      rw [List.pairwise_cons]
+      refine ⟨?_, List.pairwise_cons.mpr h⟩
+      intro a ha
+      simp only [List.mem_cons] at ha
+      rcases ha with ha | ha
+      · omega
+      · have := h.1 a ha; omega
+    · split
+      · exact List.pairwise_cons.mpr h
+      · rename_i h1 h2
+        rw [List.pairwise_cons]
+        refine ⟨?_, ih h.2⟩
+        intro a ha
+        rcases mem_insertUniq ha with ha | ha
+        · omega
+        · exact h.1 a ha
+
+theorem sortUniq_sorted (xs : List Nat) : (sortUniq xs).Pairwise (· < ·) := by
+  induction xs with
+  | nil => simp [sortUniq]
+  | cons x xs ih =>
+    unfold sortUniq
+    simp only [List.foldr_cons]
+    exact insertUniq_sorted x _ ih
+
+theorem strOf_inj (syms : List Bytes) (hnd : syms.Nodup) (i j : Nat) (hi : i < syms.length) (hj : j < syms.length)
+    (h : strOf syms i = strOf syms j) : i = j := by
+  unfold strOf at h
+  rw [List.getElem?_eq_getElem hi, List.getElem?_eq_getElem hj] at h
+  simp only [Option.getD_some] at h
+  have : syms[i]? = syms[j]? := by
+    rw [List.getElem?_eq_getElem hi, List.getElem?_eq_getElem hj, h]
+  exact (List.getElem?_inj hi hnd).mp this
+
 end Prom.BlockIndex
